@@ -53,6 +53,8 @@ pub enum Tamper {
     /// 3 04||r||s; 4 00||r||s; 5 lowercase hex text; 6 r||s||r||s; 7 leading zero bytes stripped from r and s (only when that shortens it);
     /// 8 r||s||00; 9 DER with a long-form length; 10 uppercase hex text; 11 OCTET STRING wrapping r||s
     AltEncoding(u8),
+    /// NOT an alteration: the same public key held in another Jacobian representation (see sm2util::point_in_rep)
+    KeyRep(u8),
 }
 
 fn edges() -> Vec<BigUint> {
@@ -235,6 +237,7 @@ pub fn check(c: &Case) -> CaseResult {
             }
             class = "alt-encoding";
         }
+        Tamper::KeyRep(_) => class = "untouched",
         Tamper::Multi(region, m) => {
             let (lo, hi, name) = match region % 3 {
                 0 => (0, 32, "multi-r"),
@@ -250,7 +253,10 @@ pub fn check(c: &Case) -> CaseResult {
     let (id_b, id_opt) = id_bytes(id_idx);
     // IDs None and Some("1234567812345678") are the same signer ID: that is not a tampering
     let want = r2::verify(&pk, id_b, &msg, &sig);
-    let lpk = lib_pk(&pk).map_err(|e| Fail { key: "entry=Sm2PublicKey::new input=valid-point outcome=rejected".into(), detail: e })?;
+    let mut lpk = lib_pk(&pk).map_err(|e| Fail { key: "entry=Sm2PublicKey::new input=valid-point outcome=rejected".into(), detail: e })?;
+    if let Tamper::KeyRep(kind) = &c.tamper {
+        lpk.point = point_in_rep(&pk, Some(&from_be(&c.base.d)), *kind, c.base.msg_seed);
+    }
     let got = outcome(|| lpk.verify(id_opt, &msg, &sig));
     let len_class = if sig.len() < 64 { "len<64" } else if sig.len() > 64 { "len>64" } else { "len=64" };
     match (&got, want) {
@@ -295,6 +301,7 @@ pub fn tamper_strategy() -> impl Strategy<Value = Tamper> {
         1 => Just(Tamper::None),
         5 => (0..3u8, multi::strategy()).prop_map(|(r, m)| Tamper::Multi(r, m)),
         3 => (0..12u8).prop_map(Tamper::AltEncoding),
+        3 => (1..6u8).prop_map(Tamper::KeyRep),
     ]
 }
 
@@ -317,7 +324,7 @@ pub fn run(ctx: &Ctx) {
     ctx.set_rule(
         "a case is (base, tampering): the base is a valid signature made by the *reference* signer for generated (d, ID, message, k); tamperings: every one of the 512 single-bit flips of r||s \
          (exhaustive per base), r or s replaced by {0, 1, n-1, n, n+1, 2^256-1, p, 2^255}, s = n-r, swapped r/s, r+n and s+n when they fit, message bit flip / truncation / extension, another ID, \
-         another key (-P, P+G, unrelated), every signature length 0..=130 (truncation, extension by zeros / 0xFF / random), independent random (r,s), the valid (r, s) re-encoded in 12 other ways (DER, DER variants, padded / prefixed / stripped components, hex text, doubled, OCTET STRING: none is 64 bytes, all must be rejected), multi-byte alterations of r / s / r||s that preserve the xor, the sum or the multiset of the bytes or words, and the untouched signature. \
+         another key (-P, P+G, unrelated), every signature length 0..=130 (truncation, extension by zeros / 0xFF / random), independent random (r,s), the valid (r, s) re-encoded in 12 other ways (DER, DER variants, padded / prefixed / stripped components, hex text, doubled, OCTET STRING: none is 64 bytes, all must be rejected), multi-byte alterations of r / s / r||s that preserve the xor, the sum or the multiset of the bytes or words, the untouched signature, also under the same public key held in other Jacobian representations (as computed by g_mul, Z = 2, random Z, Z with Montgomery limbs [1,0,0,0], Z = p-1: not an alteration). \
          Oracle: the reference verifier decides; the library must return Ok exactly when the reference accepts; a panic is a violation. Non-trivial: a case the reference rejects.",
     );
     ctx.assume("reference verifier (harness/src/refimpl/sm2.rs): independent verification equation and ZA; exactly-64-byte rule from the property statement");
@@ -400,6 +407,9 @@ pub fn run(ctx: &Ctx) {
             }
             for k in 0..12u8 {
                 v.push(Case { base: b.clone(), tamper: Tamper::AltEncoding(k) });
+            }
+            for k in 1..6u8 {
+                v.push(Case { base: b.clone(), tamper: Tamper::KeyRep(k) });
             }
             for t in [Tamper::None, Tamper::InfinityForgery, Tamper::SEqualsNMinusR, Tamper::SwapRS, Tamper::RPlusN, Tamper::SPlusN, Tamper::MsgFlipBit(0), Tamper::MsgFlipBit(0xFFFF_FFFF), Tamper::MsgTruncate, Tamper::MsgExtend(0), Tamper::KeyNeg, Tamper::KeyPlusG, Tamper::KeyOther(1)] {
                 v.push(Case { base: b.clone(), tamper: t });
